@@ -1341,6 +1341,66 @@ def rule_jn_build(cx, rep, port):
         rep.decide(all('hash_map' in node_text(r.value) or node_text(r.value) in ('result', '[]') for r in rets), 'lookup', gj, 'returns the bucket of the key (empty when absent)', 'get_join_records does not return the bucket of its key')
 
 
+def _pa_join_model(cx, rep, port, p, mod, rj):
+    """resolve_join_variables decided on abstract tables (A has a1, a2; B has b1, b2) for every way to write a key pair: either operand
+    order, record-number keys on either side, the unsupported `b-field == NR`, unknown and ambiguous names, two pairs in a row.
+    True when every scenario could be evaluated."""
+    from .. import absexec as AX
+    amap = {'a1': AX.Abs('VarInfo', index=0), 'a2': AX.Abs('VarInfo', index=1), 'x': AX.Abs('VarInfo', index=5)}
+    bmap = {'b1': AX.Abs('VarInfo', index=0), 'b2': AX.Abs('VarInfo', index=1), 'x': AX.Abs('VarInfo', index=6)}
+    g = lambda i: 'safe_join_get(record_a, {})'.format(i)  # noqa: E731
+    scen = [([('a1', 'b2')], ([g(0)], [1])), ([('b2', 'a1')], ([g(0)], [1])), ([('NR', 'b1')], (['NR'], [0])), ([('aNR', 'b2')], (['NR'], [1])), ([('a.NR', 'b1')], (['NR'], [0])),
+            ([('a2', 'bNR')], ([g(1)], [-1])), ([('a2', 'b.NR')], ([g(1)], [-1])), ([('bNR', 'a1')], ([g(0)], [-1])), ([('NR', 'bNR')], (['NR'], [-1])),
+            ([('b1', 'NR')], 'ERR'), ([('a1', 'a2')], 'ERR'), ([('q1', 'b1')], 'ERR'), ([('a1', 'q2')], 'ERR'), ([('x', 'b1')], 'ERR'),
+            ([('a1', 'b1'), ('b2', 'a2')], ([g(0), g(1)], [0, 1])), ([('a2', 'b1'), ('NR', 'b2')], ([g(1), 'NR'], [0, 1]))]
+    bad = {}
+
+    def on_attr(ex, node, obj, attr):
+        if isinstance(obj, AX.Abs) and obj.kind == 'VarInfo' and attr == 'index':
+            return ('nomemo', obj.props['index'])
+        return AX.NOT_HANDLED
+
+    def on_call(ex, node, fname, recv, args):
+        short = node.func.attr if isinstance(node.func, ast.Attribute) else fname.split('.')[-1]
+        if short.endswith('Error'):
+            return AX.Abs(short)
+        if short == 'combine_string_literals' and args:
+            return args[0]
+        return AX.NOT_HANDLED
+    try:
+        for pairs, want in scen:
+            ex = AX.Explorer(p, mod, on_call=on_call, on_attr=on_attr, max_choices=1)
+            runs, cut = ex.explore(rj, [dict(amap), dict(bmap), [list(pr) if port == 'js' else tuple(pr) for pr in pairs], []])
+            if len(runs) != 1:
+                return False
+            kind, val, node = runs[0].outcome
+            text = ' and '.join('{} == {}'.format(a, b) for a, b in pairs)
+            if want == 'ERR':
+                if not (kind == 'raise' and isinstance(val, AX.Abs) and val.kind == 'RbqlParsingError'):
+                    bad.setdefault('operand swap' if pairs == [('b1', 'NR')] else 'variable resolution', 'ON {}: {} instead of a parsing error'.format(text, 'accepted as {}'.format(val) if kind == 'return' else 'raises {}'.format(getattr(val, 'kind', val))))
+                continue
+            if kind == 'raise':
+                cls = 'operand swap' if any(a.startswith('b') for a, _ in pairs) else ('NR index' if 'NR' in text else 'variable resolution')
+                bad.setdefault(cls, 'ON {} is rejected ({})'.format(text, getattr(val, 'kind', val)))
+                continue
+            if not (isinstance(val, (list, tuple)) and len(val) == 2):
+                return False
+            got = (list(val[0]) if isinstance(val[0], (list, tuple)) else val[0], list(val[1]) if isinstance(val[1], (list, tuple)) else val[1])
+            if got != (want[0], want[1]):
+                cls = 'NR index' if 'NR' in text and (got[1] != want[1] or ('NR' in want[0]) != ('NR' in (got[0] if isinstance(got[0], list) else []))) else ('operand swap' if any(a.startswith('b') for a, _ in pairs) else ('A-side key expression' if got[1] == want[1] else 'variable resolution'))
+                bad.setdefault(cls, 'ON {} resolves to A keys {} / B indices {} instead of {} / {}'.format(text, got[0], got[1], want[0], want[1]))
+    except (Undecided, AX.Cut, AX._NeedChoice, KeyError, IndexError, TypeError, ValueError) as e_:
+        import os
+        if os.environ.get('RBQL_VERIF_DEBUG'):
+            print('PA-JOIN model gave up:', type(e_).__name__, e_)
+        return False
+    good = {'operand swap': 'a pair written b-side first is swapped; `b-field == NR` is rejected', 'NR index': 'record-number keys resolve to NR / index -1 on both sides',
+            'A-side key expression': 'NR or safe_join_get(record_a, index)', 'variable resolution': 'A variable resolved in the input map, B variable in the join map; unknown and ambiguous names are parsing errors'}
+    for k in ('operand swap', 'NR index', 'A-side key expression', 'variable resolution'):
+        rep.decide(k not in bad, k, rj, good[k] + ' ({} abstract ON clauses)'.format(len(scen)), bad.get(k, ''))
+    return True
+
+
 def _pa_join_resolution(rep, rj):
     """what one iteration of the pair loop appends, per path: the A-side expression and the B-side index, and which of the two written variables each comes from"""
     from .. import pathsem as PS
@@ -1547,4 +1607,5 @@ def rule_pa_join(cx, rep, port):
             lists.append(st_.value)
     vals = sorted(tuple(sorted(e.value for e in l.elts)) for l in lists)
     rep.decide(vals == [('NR', 'a.NR', 'aNR'), ('b.NR', 'bNR')], 'NR keys', lists[0] if lists else rj, 'NR/a.NR/aNR on the A side, bNR/b.NR on the B side', 'record-number key spellings are {}'.format(vals))
-    _pa_join_resolution(rep, rj)
+    if not _pa_join_model(cx, rep, port, p, mod, rj):
+        _pa_join_resolution(rep, rj)
